@@ -49,7 +49,12 @@ def expand_comparisons(stm: AST) -> AST:
 
 def _splittable(lit: AST) -> bool:
     """a negated comparison chain `not A < B < C` is no conjunction of negated comparisons and is kept as it is"""
-    return bool(lit.sign != Sign.Negation or len(lit.atom.guards) == 1)
+    if len(lit.atom.guards) == 1:
+        return True
+    # a pool or interval between two guards would be expanded once per copy
+    if any(collect_ast(g.term, "Pool") or collect_ast(g.term, "Interval") for g in lit.atom.guards[:-1]):
+        return False
+    return bool(lit.sign != Sign.Negation)
 
 
 def _normalize_operators_condition(condition: list[AST]) -> list[AST]:
